@@ -159,17 +159,27 @@ func HarnessC08Reuse() {
 	given := append([]string(nil), list...)
 	e := &ExprEqual{Column: "r", Value: "r0"}
 	q := &Query{Expr: e, GroupBy: list}
+	// a third index lacks column b (and r): executing the query there fails, possibly after
+	// some group-by columns were already resolved
+	d3 := &verifData{path: verifTempPath("c08c.updog"), n: 2, cols: []string{"a"}, vals: [][]string{{"a5"}}, sets: [][]uint64{{0x3}}}
+	d3.build()
 	idx1 := d1.open(verifBool("preload"), nil)
 	idx2 := d2.open(false, nil)
+	idx3 := d3.open(false, nil)
 	r1, _ := d1.set("r", "r0")
 	r2, _ := d2.set("r", "r0")
-	for _, which := range []int{1, 1, 2, 1} {
+	for _, which := range []int{1, 1, 2, 3, 1, 2} {
 		var res *Result
 		var err error
-		if which == 1 {
+		switch which {
+		case 1:
 			res, err = idx1.Execute(q)
-		} else {
+		case 2:
 			res, err = idx2.Execute(q)
+		default:
+			res, err = idx3.Execute(q)
+			verifAssert(err != nil && res == nil, "C08: a query on an index lacking its columns must fail")
+			continue
 		}
 		verifAssert(err == nil, "C08: repeated execution returned an error")
 		if err != nil {
@@ -188,5 +198,6 @@ func HarnessC08Reuse() {
 	}
 	idx1.Close()
 	idx2.Close()
+	idx3.Close()
 	verifReach("end")
 }
